@@ -31,6 +31,7 @@ func run(c *fw.Ctx) {
 	hostileNames(c)
 	permissionSlice(c)
 	faultSlice(c)
+	fsx.Interference(c, mon)
 }
 
 // hostileNames drives OS failure modes the bounded universe cannot reach:
